@@ -53,7 +53,7 @@ func recordDefault(env *core.Env, emit func(map[string]any)) (*core.Summary, err
 			ts.Tamper = append(ts.Tamper, tam)
 		}
 		d := &drv{env: env, prop: env.Prop, seq: true, via: vias[r.Intn(len(vias))], ts: &ts,
-			gdel: map[int]bool{}, rejected: map[int]bool{}, everSeen: map[string]bool{}}
+			gdel: map[int]bool{}, rejected: map[int]bool{}, tfate: map[int]string{}}
 		d.rnd = rand.New(rand.NewSource(r.Int63()))
 		ct, err := w.build(ts, env.Seed*31+int64(t), "", "")
 		if err != nil {
